@@ -124,7 +124,7 @@ theorem simW_step (n : Nat) (hS : SimS n) (hW : SimW n) : SimW (n+1) := by
         have hae3 : absEnvC s1 = absEnv { s1 with noErrExit := s.noErrExit, exit := s1.exit.clear } := by
           simp [absEnv, absEnvC, hle]
         rw [hae3]
-        have hit := sim_iter hS True False false b { s1 with noErrExit := s.noErrExit, exit := s1.exit.clear }
+        have hit := sim_iter hS True False b { s1 with noErrExit := s.noErrExit, exit := s1.exit.clear }
           hst hb0 hsb (fun _ => hlz) (fun h => h.elim) hd3 hl3 hnf3 h5
         cases hlb : loopStmtsBroken (fun st => run n (.stmt st)) b
             { s1 with noErrExit := s.noErrExit, exit := s1.exit.clear } with
@@ -144,7 +144,7 @@ theorem simW_step (n : Nat) (hS : SimS n) (hW : SimW n) : SimW (n+1) := by
             obtain ⟨fl2, e2⟩ := pr
             rw [hsb2] at hit
             simp only
-            rcases hit with ⟨hab, hbr, hd4, hf4, hl4, hnf4, hnp4, he2, hst2, _, hz4, _⟩ | ⟨hab, hpo, hbs, _⟩
+            rcases hit with ⟨hab, hbr, hd4, hf4, hl4, hnf4, hnp4, he2, hst2, _, hz4, _⟩ | ⟨hab, hpo, hbs⟩
             · -- next iteration
               subst hbr
               have hz0 : s4.exit.code = 0 := hz4 trivial
